@@ -102,4 +102,65 @@ def expectedRet (t : VTree) : Bool := (visited t).all (fun i => (verdict i).trut
 def specValidate (t : VTree) : Result :=
   { ret := expectedRet t, valids := expectedValids t, log := expectedLog t }
 
+/-! ### `validate(recurse=False)`
+
+Documented: "if False, do not validate children" — the element gets its OWN verdict by the same rules
+(descent list, then ascent list, each cut at its first failure or Skip), nothing else is invoked, no other
+element's `.valid` is written. -/
+
+def noRecurseLog (i : Info) : List Call :=
+  callsOf i.id true (downVerdict i).2 ++ callsOf i.id false (upVerdict i).2
+
+def specNoRecurse (i : Info) : NoRec := { valid := verdict i, log := noRecurseLog i }
+
+/-- what the branch computes as written, said without the assignments: the LAST phase that evaluates decides -/
+def lastPhaseVerdict (i : Info) : Valid :=
+  match (upVerdict i).1 with
+  | .uneval => (match (downVerdict i).1 with
+      | .uneval => .uneval
+      | d => .ofBool d.truthy)
+  | u => .ofBool u.truthy
+
+/-- the two readings coincide unless the descent list failed and the ascent list passed -/
+def phasesAgree (i : Info) : Bool :=
+  (upVerdict i).1 == .uneval || (downVerdict i).1.truthy || !(upVerdict i).1.truthy
+
+/-! ### the `validator_validated` signal
+
+Documented (`validate_element`): "Emits `validator_validated` after each validator is tested"; the sender is
+the validator, `result` its raw return value; the fallback check of an element without validators reports
+with sender `NotEmpty`. -/
+
+/-- one signal per validator INVOKED, in list order, with the raw outcome -/
+def sigsFrom (id : Nat) (descending : Bool) : Nat → List Outcome → List Signal
+  | _, [] => []
+  | k, .tru :: rest => ⟨id, .validator descending k, .tru⟩ :: sigsFrom id descending (k + 1) rest
+  | k, o :: _ => [⟨id, .validator descending k, o⟩]
+
+def elementSignals (i : Info) (descending : Bool) (vs : List Outcome) : List Signal :=
+  if i.empty && i.optional then []
+  else match vs with
+    | [] => [⟨i.id, .notEmpty, if i.empty then .fls else .tru⟩]
+    | vs => sigsFrom i.id descending 0 vs
+
+def downSignals (i : Info) : List Signal :=
+  if i.container then (match i.down with | [] => [] | d => elementSignals i true d)
+  else elementSignals i true i.down
+
+def upSignals (i : Info) : List Signal :=
+  if i.container then elementSignals i false i.up else []
+
+def expectedSignals (t : VTree) : List Signal :=
+  (visited t).flatMap downSignals ++ (visited t).reverse.flatMap upSignals
+
+/-- a validator's signal comes right after its invocation; the fallback check invokes nothing -/
+def eventsOf (s : Signal) : List Event :=
+  match s.sender with
+  | .validator d k => [.call (s.id, d, k), .signal s]
+  | .notEmpty => [.signal s]
+
+def expectedTrace (t : VTree) : List Event := (expectedSignals t).flatMap eventsOf
+
+def expectedNoRecurseTrace (i : Info) : List Event := (downSignals i ++ upSignals i).flatMap eventsOf
+
 end Flatland.C05.Spec
